@@ -82,6 +82,11 @@ def main():
 def write_readme():
     dirs = sorted(x for x in glob.glob(os.path.join(HERE, "seeded", "C*-*")) if os.path.isdir(x))
     metas = [(os.path.basename(d), json.load(open(os.path.join(d, "meta.json")))) for d in dirs]
+    annp = os.path.join(HERE, "seeded", "annotations.json")      # which rule was added after a miss (kept apart from the metas,
+    ann = json.load(open(annp)) if os.path.exists(annp) else {}  # which every run rewrites)
+    for name, m in metas:
+        if name in ann:
+            m["rule_added_after_miss"] = ann[name]
     first = sum(1 for _, m in metas if m.get("caught_before_strengthening"))
     now = sum(1 for _, m in metas if m.get("caught_by_own_property_check"))
     notes = os.path.join(HERE, "seeded", "NOTES.md")
